@@ -618,6 +618,11 @@ def check_types(
                     sub_annotation_info = AnnotationInfo(annot)
                     if not sub_annotation_info.is_generic_df:
                         continue
+                    # None is admitted by the Union as a whole
+                    sub_annotation_info.optional = (
+                        sub_annotation_info.optional
+                        or annotation_info.optional
+                    )
 
                     schema_model = cast(
                         DataFrameModel, sub_annotation_info.arg
